@@ -2,7 +2,7 @@
    block (cumulative ones at the block start) plus a sentinel; rank1 adds the popcounts of the whole words of the
    block and a masked partial word; select1 / select0 binary-search the block table and scan the block's words
    with a running remainder (breaking at the end of the word vector; select0 clamps the zeros of the last partial
-   word to the bits that exist).  The word vector is the BitVector's: ceil(len/64) words.
+   word to the bits that exist).  The word vector is the BitVector's: ceil(len/64) words plus `extra` all-zero words.
    Not modelled: u32 truncation of the table entries.  Definitions only. *)
 From Coq Require Import List Arith Lia Bool.
 From ZV.C04 Require Import Spec Model ModelGen ModelSE256.
@@ -26,9 +26,9 @@ Fixpoint simple_lines (bs : list bool) (nw n i cum : nat) : list nat * nat :=
 
 Record simple := { sm_bits : list bool; sm_size : nat; sm_nw : nat; sm_cache : list nat; sm_mr0 : nat; sm_mr1 : nat }.
 
-Definition simple_build (bs : list bool) : simple :=
+Definition simple_build (bs : list bool) (extra : nat) : simple :=
   let sz := length bs in
-  let nw := nwords sz in
+  let nw := nwords sz + extra in
   let '(lines, cum) := simple_lines bs nw (nlines256 sz) 0 0 in
   {| sm_bits := bs; sm_size := sz; sm_nw := nw; sm_cache := lines ++ [cum]; sm_mr0 := sz - cum; sm_mr1 := cum |}.
 
